@@ -2,6 +2,7 @@ package main
 
 import (
 	"fmt"
+	"strings"
 
 	"verif/internal/drive"
 	"verif/internal/gen"
@@ -130,7 +131,44 @@ func (c18) Plan(tier string, seed int64) []mon.Workload {
 	return []mon.Workload{
 		{Name: "stale", N: int64(len(c18Positions) * len(c18NVs) * len(c18Pre)), Exhaustive: true},
 		{Name: "programs", N: n},
+		{Name: "scope", N: int64(len(c18Loops) * len(c18Exits) * len(c18Wraps) * len(c18Tails)), Exhaustive: true},
 	}
+}
+
+// scope (exhaustive): loops left normally / by break / by continue, at top
+// level, inside an if, inside an outer loop, twice in a row - followed by a
+// read of a name that may or may not still be in scope. In v2 reading a name
+// that went out of scope is an error; a stale value is the violation.
+var c18Loops = []string{
+	"for i = 0; i < 3; i = i + 1 {\n  b = i\n  EXIT\n  c = b\n}\n",
+	"for i = 0; ; i = i + 1 {\n  if i >= 3 { break }\n  b = i\n  EXIT\n  c = b\n}\n",
+	"for i in [0, 1, 2] {\n  b = i\n  EXIT\n  c = b\n}\n",
+	"for i in \"012\" {\n  b = i\n  EXIT\n  c = b\n}\n",
+	"k = 0\nfor ; k < 3; {\n  k = k + 1\n  b = k\n  i = k\n  EXIT\n  c = b\n}\n",
+}
+var c18Exits = []string{"p(\"body\")", "if b == 1 || b == \"1\" { break }", "if b == 1 || b == \"1\" { continue }", "if true { if b == 0 || b == \"0\" { break } }"}
+var c18Wraps = []string{"%s", "if true {\n%s}\n", "for j = 0; j < 2; j = j + 1 {\n  READ\n%s}\n", "if true {\n%s%s  READ\n}\n", "o = 1\n%sif true {\n  o = 2\n}\n"}
+var c18Tails = []string{"p(i)", "p(b)", "p(c)", "p(j)", "p(o)", "p(\"ok\")", "b = 5\np(b)"}
+
+func c18Scope(i int64) []*gt.T {
+	ti := int(i % int64(len(c18Tails)))
+	i /= int64(len(c18Tails))
+	wi := int(i % int64(len(c18Wraps)))
+	i /= int64(len(c18Wraps))
+	ei := int(i % int64(len(c18Exits)))
+	li := int(i / int64(len(c18Exits)))
+	loop := strings.ReplaceAll(c18Loops[li], "EXIT", c18Exits[ei])
+	read := "if j == 1 { " + c18Tails[ti] + " }"
+	text := strings.ReplaceAll(strings.ReplaceAll(c18Wraps[wi], "%s", loop), "READ", read) + c18Tails[ti] + "\np(\"end\")\n"
+	o := drive.Parse("scope", text)
+	if o.Err != nil {
+		panic("c18: scope program does not parse: " + text + ": " + o.Err.Error())
+	}
+	l, err := gt.FromStmts(o.Stmts)
+	if err != nil {
+		panic(err)
+	}
+	return gt.CloneStmts(l)
 }
 
 type c18Case struct {
@@ -157,9 +195,13 @@ func (c18) build(c *mon.Ctx, workload string, i int64) c18Case {
 		stmts = append(stmts, gt.Call("p", gt.Str("after")))
 		return c18Case{Stmts: stmts, Cell: pos.Name + " / " + nv.Name + " / " + pre.Name}
 	}
+	if workload == "scope" {
+		return c18Case{Stmts: c18Scope(i), Cell: ""}
+	}
 	g := gen.NewProg(c.R)
 	g.V2 = true
 	g.Multi = true
+	g.ReadUndefined = 10
 	g.IllTyped = 60
 	g.MaxDepth = 2 + c.R.Intn(2)
 	g.Containers = c.R.Intn(2) == 0
@@ -233,7 +275,10 @@ func (k c18) Run(c *mon.Ctx, workload string, i int64) {
 		return
 	}
 	// differential run on v1 where the languages coincide
-	if workload == "programs" && !cs.Multi && mo.Unspecified == "" && !mo.Shared.MapOrderDependent && ro.Panic == nil && !ro.Budget {
+	// (an undefined name is an error on v2 and reads nil on v1: the languages
+	// do not coincide for such programs)
+	undefinedRead := mo.Err != nil && strings.Contains(mo.Err.Msg, "is not defined")
+	if workload == "programs" && !cs.Multi && !undefinedRead && mo.Unspecified == "" && !mo.Shared.MapOrderDependent && ro.Panic == nil && !ro.Budget {
 		if s1, err := drive.LoadV1One(name, src); err == nil {
 			o1 := drive.RunV1(s1, drive.PointFromModel(nil), &drive.RunState{Budget: realBudget(mo.Shared.Steps)})
 			c.Eval(1)
